@@ -27,6 +27,7 @@ func init() {
 }
 
 func runC05(c *report.Ctx) {
+	checkErrorIdentity(c, scopeFrontEnd, frontEndDeadCases, 8)
 	c.Clause("1 timer and timeout case")
 	checkInvokeTimer(c)
 	c.Clause("2-3 a reset can always interrupt")
@@ -259,6 +260,7 @@ func checkFrontEndTimeout(c *report.Ctx) {
 		}
 		ok = inCase && fromParse
 	}
+	checkOneBodyPerRequest(c)
 	c.Check("R-CONST", an.FuncName(f)+"/timeout-message", "a timed-out invocation is answered with 'Task timed out after N.00 seconds', N being the configured timeout", ok, fpos(f), 1, "%v", ok)
 	_ = strings.TrimSpace
 }
